@@ -102,7 +102,7 @@ func (c *compiler) stmt(s Stmt) {
 		a.Push(bigDec(s.A)).Op(SLOAD).PushU(1).Op(ADD).Push(bigDec(s.A)).Op(SSTORE)
 	case "log":
 		// memory word 0 := N^M marker, then LOGn with synthetic topics
-		a.PushU(s.N*1000+s.M).PushU(0).Op(MSTORE)
+		a.PushU(s.N*1000 + s.M).PushU(0).Op(MSTORE)
 		for i := uint64(0); i < s.N && i < 4; i++ {
 			a.PushU(0xa0 + i + s.M)
 		}
@@ -248,15 +248,16 @@ func CompileHex(p Program) string { return hex.EncodeToString(Compile(p)) }
 
 // GenCfg steers the soup generator.
 type GenCfg struct {
-	Addrs       []string // address operands for BALANCE/EXT*/selfdestruct beneficiaries
-	CallTargets []string // callee addresses
-	NoCtx       bool     // no block-context / origin / gasprice reads
-	NoGasRead   bool     // no GAS opcode value escaping into state
-	NoCreate    bool
-	NoDestruct  bool
-	NoValue     bool // calls carry no value
-	MaxStmts    int
-	Depth       int // nesting budget for init code programs
+	Addrs               []string // address operands for BALANCE/EXT*/selfdestruct beneficiaries
+	CallTargets         []string // callee addresses
+	NoCtx               bool     // no block-context / origin / gasprice reads
+	NoGasRead           bool     // no GAS opcode value escaping into state
+	NoCreate            bool
+	NoDestruct          bool
+	NoValue             bool // calls carry no value
+	NoNativePrecompiles bool // never call Ethereum's own precompiles
+	MaxStmts            int
+	Depth               int // nesting budget for init code programs
 }
 
 func hexWord(t *rapid.T, label string) string {
@@ -379,9 +380,13 @@ func GenStmt(t *rapid.T, cfg GenCfg, terminal bool) Stmt {
 			return Stmt{Op: pick(t, "ext", []string{"balance", "extcodesize", "extcodehash", "extcodecopy"}), A: pick(t, "addr", cfg.Addrs), Sink: genSink(t)}
 		},
 		func() Stmt { return Stmt{Op: "ctx", A: pick(t, "ctxsafe", ctxSafe), Sink: genSink(t)} },
-		func() Stmt { return Stmt{Op: "keccak", M: uint64(rapid.IntRange(0, 64).Draw(t, "klen")), Sink: genSink(t)} },
+		func() Stmt {
+			return Stmt{Op: "keccak", M: uint64(rapid.IntRange(0, 64).Draw(t, "klen")), Sink: genSink(t)}
+		},
 		func() Stmt { return Stmt{Op: "burn", N: uint64(rapid.IntRange(1, 300).Draw(t, "iters"))} },
-		func() Stmt { return Stmt{Op: "calldataload", N: uint64(rapid.IntRange(0, 40).Draw(t, "cdoff")), Sink: genSink(t)} },
+		func() Stmt {
+			return Stmt{Op: "calldataload", N: uint64(rapid.IntRange(0, 40).Draw(t, "cdoff")), Sink: genSink(t)}
+		},
 	}
 	if len(cfg.CallTargets) > 0 {
 		call := func() Stmt {
@@ -390,7 +395,13 @@ func GenStmt(t *rapid.T, cfg GenCfg, terminal bool) Stmt {
 				cd = fmt.Sprintf("%02x", rapid.IntRange(0, 3).Draw(t, "cd0"))
 			}
 			op := pick(t, "callop", []string{"call", "call", "delegatecall", "staticcall", "callcode"})
-			return Stmt{Op: op, A: pick(t, "callee", cfg.CallTargets), B: genValue(t, cfg), N: genGas(t), Sink: genSink(t), Data: cd, M: uint64(rapid.IntRange(0, 1).Draw(t, "retsz"))}
+			callee := pick(t, "callee", cfg.CallTargets)
+			if !cfg.NoNativePrecompiles && rapid.IntRange(0, 9).Draw(t, "nativepc") == 0 {
+				// Ethereum's own precompiles (ecrecover, sha256, identity, blake2f, and the first unassigned address)
+				callee = pick(t, "nativecallee", []string{"0x0000000000000000000000000000000000000001", "0x0000000000000000000000000000000000000002", "0x0000000000000000000000000000000000000004", "0x0000000000000000000000000000000000000009", "0x000000000000000000000000000000000000000a"})
+				cd = hex.EncodeToString(rapid.SliceOfN(rapid.Byte(), 0, 70).Draw(t, "nativecd"))
+			}
+			return Stmt{Op: op, A: callee, B: genValue(t, cfg), N: genGas(t), Sink: genSink(t), Data: cd, M: uint64(rapid.IntRange(0, 1).Draw(t, "retsz"))}
 		}
 		opts = append(opts, call, call, call)
 	}
